@@ -164,7 +164,21 @@ static void do_run(char **w, int n)
 
 	struct archive *a = archive_read_new();
 	archive_read_support_filter_all(a);
-	archive_read_support_format_all(a);
+	{	/* only=<format>: a single format reader, so that the read-ahead buffer is sized by that
+		 * reader's own requests and not by the other bidders' */
+		const char *only = kv(w, n, "only");
+		static const struct { const char *n; int (*f)(struct archive *); } one[] = {
+			{"lha", archive_read_support_format_lha}, {"cab", archive_read_support_format_cab},
+			{"rar", archive_read_support_format_rar}, {"rar5", archive_read_support_format_rar5},
+			{"zip", archive_read_support_format_zip}, {"7zip", archive_read_support_format_7zip},
+			{"cpio", archive_read_support_format_cpio}, {"tar", archive_read_support_format_tar},
+			{"ar", archive_read_support_format_ar}, {"iso9660", archive_read_support_format_iso9660},
+			{"xar", archive_read_support_format_xar}, {"mtree", archive_read_support_format_mtree},
+			{"warc", archive_read_support_format_warc}, {NULL, NULL} };
+		int done = 0;
+		for (int i = 0; one[i].n; i++) if (strcmp(only, one[i].n) == 0) { one[i].f(a); done = 1; }
+		if (!done) archive_read_support_format_all(a);
+	}
 	if (strcmp(kv(w, n, "raw"), "1") == 0) archive_read_support_format_raw(a);   /* filter-only streams */
 	int r = ARCHIVE_OK, fd = -1; FILE *fp = NULL; pid_t feeder = 0;
 	memset(&S, 0, sizeof S);
